@@ -36,7 +36,7 @@ vars == <<db, chain, snap, sy, err>>
 NoSnap == [some |-> FALSE, ver |-> 0, tasks |-> EmptyDb, trim |-> 0]
 NoReq  == -1
 Idle   == [pc |-> "idle", tt |-> EmptyDb, tb |-> 0, cur |-> <<>>, orig |-> <<>>,
-           pos |-> 1, req |-> NoReq, av |-> FALSE, acc |-> <<>>]
+           pos |-> 1, req |-> NoReq, av |-> FALSE, acc |-> <<>>, nrej |-> 0]
    \* acc: the transformed server operations applied so far (stored as synchronised operations
    \* at the end of the sync: the per-task operation history, get_task_operations)
 
@@ -144,8 +144,9 @@ SyncPush(r, urg) ==
              ELSE /\ UNCHANGED err
                   /\ sy' = [sy EXCEPT ![r] =
                        IF Pinned
-                       THEN NextBatch([s EXCEPT !.req = Len(chain), !.pos = 1, !.pc = "pull"])
-                       ELSE [s EXCEPT !.req = Len(chain), !.pc = "pull"]]
+                       THEN NextBatch([s EXCEPT !.req = Len(chain), !.pos = 1, !.pc = "pull",
+                                                !.nrej = @ + 1])
+                       ELSE [s EXCEPT !.req = Len(chain), !.pc = "pull", !.nrej = @ + 1]]
   /\ UNCHANGED db
 
 (* request: add_snapshot(tb, tt).  The pinned loop (D4) takes the snapshot  *)
